@@ -57,6 +57,18 @@ def _more4(check, na):
           TB, "pointer normal-form analysis + compile-time layout witnesses", "DESIGN.md 4/C11, 6")
 
 
+def _more5(check, na):
+    check("C06", "other",
+          "Decides the structural clauses of constructor correctness (each a necessary condition) from expressions extracted out of MIR: every payload field written (ptr::write/copy, never a dropping assignment) before the first owning handle exists; one length expression sizes the allocation, counts the copy / bounds the fill loop and is recorded by ThinArc constructors; sources disarmed exactly once (Vec set_len(0) then dropped, Box re-typed to ManuallyDrop, T: Copy for borrowed slices); loop shape; slot provenance and exhaustion re-check; exact-size fast path guard; delegating constructors make one constructor call. Element-for-element equality of the delivered contents is NOT decided (a value property).",
+          TB + " Expression extractor analysis/symx.py.", "def-use expression extraction, dominance and cut-set rules on the constructors", "DESIGN.md 4/C06")
+    check("C10", "other",
+          "The length invariant is carried by a type; the check shows nothing forges or disturbs it: typestate-introducing casts only in unsafe constructors whose safe call sites are dominated by `stored length == slice.len()` on the converted value; mutable access into the protected payload ends in the user header or the slice only, private field, no DerefMut; the single re-fattening helper reads the length from the same allocation and all users reach it; thin<->fat conversions keep the block pointer and the count; the refusing path of into_thin releases the Arc; with_arc_mut's guard (C07).",
+          TB, "typestate-by-type rules: cast/aggregate enumeration, dominance, projection whitelist, pointer normal forms", "DESIGN.md 4/C10")
+    check("C15", "other",
+          "Uninitialised constructors return payload types whose element parameters all sit under MaybeUninit (so modelled drop glue runs no element destructor whatever was written), the header is written before the handle exists, the five assume_init functions are event-free casts around the same block pointer between types equal up to MaybeUninit erasure, no safe function calls them, and the deprecated writers go through the panicking uniqueness check. Whether clients initialise every slot is their unsafe obligation.",
+          TB + " MaybeUninit has no drop glue (language guarantee).", "type walk of resolved signatures + balance engine + pointer normal forms", "DESIGN.md 4/C15")
+
+
 _reg0 = register
 
 
@@ -66,3 +78,4 @@ def register(check, na):  # noqa: F811
     _more2(check, na)
     _more3(check, na)
     _more4(check, na)
+    _more5(check, na)
